@@ -233,7 +233,7 @@ func phaseSchedules(c *lib.Ctx) {
 				if c.Expired() {
 					return
 				}
-				st := vsync.Explore(mkSchedBody(c, threads, pre), vsync.Options{Bound: bound, MaxExecutions: maxExec, Deadline: c.Deadline, StuckTimeout: 30 * time.Second, Trace: true, ReleasePoints: true}, nil)
+				st := vsync.Explore(mkSchedBody(c, threads, pre), vsync.Options{Bound: bound, MaxExecutions: maxExec, Deadline: c.Deadline, StuckTimeout: 120 * time.Second, Trace: true, ReleasePoints: true}, nil)
 				c.Count("sched_executions", int64(st.Executions))
 				c.Count("sched_points", st.Points)
 				c.Max("sched_max_points", int64(st.MaxPoints))
